@@ -88,8 +88,10 @@ def mark_siblings(ctx):
         for x in qs:
             ok = any(f.startswith('DbTransaction.txid ==') for f in x.filters) and any(f.startswith('DbTransactionOutput.output_n ==') for f in x.filters)
             ctx.require(ok, q, 'spent marking selects rows by %s, expected equality on txid and output_n' % x.filters, x.node)
-        src = unparse(fn)
-        ctx.require('.spent = True' in src and 'self._commit()' in src, q, 'rows are not set spent = True and committed', fn)
+        marks = [n for n in ast.walk(fn) if (isinstance(n, ast.Assign) and norm(n.targets[0]).endswith('.spent') and isinstance(n.value, ast.Constant) and n.value.value is True) or
+                 (isinstance(n, ast.Call) and isinstance(n.func, ast.Attribute) and n.func.attr == 'update' and 'spent' in norm(n) and 'True' in norm(n))]
+        commits = [c for c in ast.walk(fn) if isinstance(c, ast.Call) and isinstance(c.func, ast.Attribute) and c.func.attr in ('_commit', 'commit')]
+        ctx.require(bool(marks) and bool(commits), q, 'rows are not set spent = True and committed', fn)
 
 
 @PROP.obligation('C08.readers', canaries=[
@@ -426,7 +428,9 @@ def balance_reset(ctx):
                     'a key funded in this session still reads balance 0, is skipped, and keeps its old balance after its last output was spent elsewhere')
     src = unparse(fn)
     ctx.require("self._balance = sum([b['balance'] for b in balance_list" in src, q, 'wallet total is not the sum over the grouped query result', fn)
-    ctx.require('bulk_update_mappings(DbKey, key_balance_list)' in src, q, 'per-key balances are not written from the same grouped result', fn)
+    bulk = [c for c in ast.walk(fn) if isinstance(c, ast.Call) and isinstance(c.func, ast.Attribute) and c.func.attr == 'bulk_update_mappings' and len(c.args) == 2 and norm(c.args[0]) == 'DbKey']
+    ctx.require(bool(bulk) and all(any(isinstance(x, ast.Name) and x.id == 'key_balance_list' for x in ast.walk(c.args[1])) for c in bulk), q,
+                'per-key balances are not written from the same grouped result (key_balance_list)', fn)
 
 
 @PROP.obligation('C08.persist', canaries=[
